@@ -393,7 +393,51 @@ def cases(tier, seed):
         for n in (1, 2, 7):
             for mode in ["in", "out"]:
                 yield {"k": "long", "kind": kind, "n": n, "mode": mode}
+    # user code that fails with StopIteration (a bare next() on an exhausted iterator): the run
+    # must fail, never end as if the flow were over
+    for kindu in ["fc", "fr", "run"]:
+        for n in range(1, 4):
+            for mode in ["in", "out", "none"]:
+                if mode == "none" and kindu != "run":
+                    continue        # only a run element may do without a buffer
+                for at in range(0, 7):
+                    yield {"k": "userstop", "kind": kindu, "n": n, "mode": mode, "at": at}
     yield {"k": "init"}
+
+
+class _StopsAt(object):
+    """fill/compute, fill/request or run element whose user code raises StopIteration when it
+    meets value number *at* (0-based)."""
+
+    def __init__(self, kind, at):
+        self._at = at
+        self._seen = 0
+        self._vals = []
+        if kind == "fc":
+            self.fill, self.compute = self._fill, self._results
+        elif kind == "fr":
+            self.fill, self.request, self.reset = self._fill, self._results, self._reset
+        else:
+            self.run = self._run
+
+    def _fill(self, value):
+        weights = iter(())
+        if self._seen == self._at:
+            self._seen += 1
+            next(weights)           # StopIteration
+        self._seen += 1
+        self._vals.append(value)
+
+    def _results(self):
+        yield list(self._vals)
+
+    def _reset(self):
+        self._vals = []
+
+    def _run(self, flow):
+        for v in flow:
+            self._fill(v)
+            yield v
 
 
 def classify_diff(got, exp, xs, n):
@@ -453,6 +497,32 @@ def run_case(r, obs):
     import lena.core
     from rv.monitors.steps import StepBudgetExceeded
     k = r["k"]
+    if k == "userstop":
+        kind, n, mode, at = r["kind"], r["n"], r["mode"], r["at"]
+        obs.nontrivial = True
+        kw = {"bufsize": n, "reset": kind == "fr"}
+        if mode == "in":
+            kw["buffer_input"] = True
+        elif mode == "out":
+            kw["buffer_output"] = True
+        elif kind == "run":
+            kw["yield_on_remainder"] = True     # a run element without a buffer
+        for N in (at + 1, at + 3, 2 * n + at + 1):
+            if kind == "run" and mode != "none" and at >= (N // n) * n:
+                continue        # the value lies in the incomplete last block, which is not run
+            fr = lena.core.FillRequest(_StopsAt(kind, at), **kw)
+            got, exc = [], None
+            try:
+                for x in fr.run(iter(range(N))):
+                    got.append(_arrived(x))
+            except (RuntimeError, StopIteration) as e:
+                exc = e
+            obs.count("run_executions")
+            obs.check(exc is not None, "user-exception-ends-the-flow-silently:run:" + kind,
+                      "FillRequest(element whose user code raises StopIteration at value %d, "
+                      "bufsize=%d, buffer=%s).run(range(%d)) ended normally with %r"
+                      % (at, n, mode, N, got))
+        return
     if k == "run":
         kind, n, mode, reset, yor = r["kind"], r["n"], r["mode"], r["reset"], r["yor"]
         for N in range(0, r["nmax"] + 1):
@@ -1023,3 +1093,5 @@ RULE += (' Added: the options given positionally in the order of the documented 
          'request() results that are dropped unread or read only after the next fill.')
 RULE += (' Added: an element whose results are its own live state (copied by the consumer at '
          'arrival); values that are objects compared by identity (the results hold those objects).')
+RULE += (' Added: wrapped fill/compute, fill/request and run elements whose user code raises '
+         'StopIteration at value k (every position in a block): run() must fail, not end.')
